@@ -143,6 +143,12 @@ func decodeProtobufSignDoc(signDocBytes []byte) (apitypes.TypedData, error) {
 		return apitypes.TypedData{}, errors.New("body contains unsupported fields: TimeoutHeight, ExtensionOptions, or NonCriticalExtensionOptions")
 	}
 
+	// The typed data built below carries the fee amount and the gas limit only: a fee granter would not be covered by
+	// the signature, so anybody could add or change it afterwards and have the fee taken from another account.
+	if authInfo.Fee != nil && authInfo.Fee.Granter != "" {
+		return apitypes.TypedData{}, errors.New("fee contains unsupported fields: Granter")
+	}
+
 	if len(authInfo.SignerInfos) != 1 {
 		return apitypes.TypedData{}, fmt.Errorf("invalid number of signer infos provided, expected 1 got %v", len(authInfo.SignerInfos))
 	}
